@@ -169,6 +169,8 @@ def statement_coverage():
         "10 J = INT ( JOYSTK ( 0 ) / 8 )", "10 A$ = STRING$ ( INT ( X ) , STR$ ( Y ) )", "10 A ( 1 ) = INT ( VAL ( A$ ) )", "10 A$ = HEX$ ( INT ( X ) )",
         # two-operand MID$ (Color BASIC: to the end of the string)
         "10 A$ = MID$ ( B$ , 2 )", '10 IF MID$ ( A$ , 2 ) = "X" THEN 10', "10 PRINT MID$ ( A$ , N )",
+        # keyword pairs written without the blank (crunched listings)
+        "10 PALETTERGB", "10 PALETTECMP", "10 PALETTE  RGB", "10 IF A=1 THEN PALETTECMP ELSE PALETTERGB",
         # lines without a statement
         "10 :", "10 : :", "10 GOTO 20\n20 :", "10 GOTO 20\n20", "10 A = 1\n20\n30 B = 2",
     ]
